@@ -83,6 +83,19 @@ def oracle_verdicts(part, cases, impl, shards=C.NPROC):
     return res
 
 
+_CORPUS = {}
+
+
+def corpus_of(engine):
+    if engine not in _CORPUS:
+        p = os.path.join(C.ROOT, "corpus", engine + ".txt")
+        try:
+            _CORPUS[engine] = [l.split("\t")[0].strip() for l in open(p) if l.strip() and not l.startswith("#")]
+        except FileNotFoundError:
+            _CORPUS[engine] = []
+    return _CORPUS[engine]
+
+
 def directed_search(mod, part, lines, listed_findings):
     """shrinks each disagreeing case while the implementation and the model still differ on it; every candidate
     tried on the way is checked by the part's scans; returns (case, impl observation, verdict) of the first candidate
@@ -147,6 +160,15 @@ def run(pid, tier, seed, replay=None):
 
     # --- 2. cases
     parts = mod.parts(tier, rng) if replay is None else mod.replay_parts(json.load(open(replay)))
+    if replay is None:
+        # the regression corpus of the part's engine runs first (corpus/<engine>.txt, tools/mkcorpus.py): the
+        # minimised failing cases of earlier detections, so that no detection depends on a random draw
+        for part in parts:
+            if getattr(part, "NO_CORPUS", False):
+                continue
+            extra = [c for c in corpus_of(part.engine) if c not in set(part.cases)]
+            if extra:
+                part.cases = extra + list(part.cases)
     for part in parts:
         if not harness_ok:
             break
